@@ -13,8 +13,12 @@ TRUSTED = c10.TRUSTED
 ASSUMPTIONS = ["valid_mesh (see C03); fixed_sites lists each terminal site once",
                "C06.init (TDGLSolver.__init__ sets psi_init on terminal sites and fix_psi = terminal_psi is not None) is decided in the "
                "constructor unit of C19/C08 when available; here the pinned-row, refresh and step obligations are decided",
-               "a pinned site sees Laplacian action L psi = psi_i (identity row), which is what C06.pinned_row proves"]
-EXPLANATION = "pinned-row stencil on the real build_laplacian, refresh keeps the pin (C10 invariant with pinned rows), one step at a pinned site"
+               "a pinned site sees Laplacian action L psi = psi_i (identity row), which is what C06.pinned_row proves",
+               "Device.terminal_info: Polygon.contains_points, np.intersect1d, array product / indexing / sum are uninterpreted (free term algebra); "
+               "the postcondition is term equality with the contract evaluated on the device's state at the call, so it holds under every interpretation; "
+               "a syntactically different but equivalent computation would be reported as undecided, not as a violation"]
+EXPLANATION = ("pinned-row stencil on the real build_laplacian, refresh keeps the pin (C10 invariant with pinned rows), one step at a pinned site, "
+               "and the real Device.terminal_info returns the boundary sites inside each CURRENT terminal of the CURRENT mesh after any history of calls")
 F = "tdgl.finite_volume.operators:"
 
 
@@ -97,17 +101,204 @@ def run_step_nonzero(mutate=None):
     return _run_step(mutate, False)
 
 
+# ---------------------------------------------------------------------------------------------------------------------------------
+# Device.terminal_info(): WHICH sites are pinned.  The real method is executed over the free term algebra of the device's current
+# state: mesh arrays, the coherence length and every terminal's membership test are uninterpreted; the postcondition is that the
+# returned indices are -- as terms -- intersect(inside(t, xi*sites(mesh)), boundary(mesh)) of the mesh / terminals the device has
+# AT THE CALL, also after earlier calls on a different mesh, different terminals or a different coherence length (no memory).
+class Tm:
+    def __init__(self, op, *args):
+        self.op, self.args = op, args
+
+    def key(self):
+        ks = tuple(a.key() if isinstance(a, Tm) else ("const", repr(a)) for a in self.args)
+        if self.op == "mul":
+            ks = tuple(sorted(ks))
+        return (self.op,) + ks
+
+    def __mul__(self, o):
+        if isinstance(o, _UnitOne):
+            return _Quantity(self)
+        return Tm("mul", self, o)
+    __rmul__ = __mul__
+
+    def __getitem__(self, i):
+        return Tm("take", self, i)
+
+    def sum(self):
+        return Tm("sum", self)
+
+    def __lt__(self, o):
+        # the order of the returned tuple (by terminal length) is not part of C06: any fixed total order on terms will do
+        return repr(self.key()) < repr(o.key())
+
+    def __repr__(self):
+        return self.op + "(" + ", ".join(repr(a) for a in self.args) + ")"
+
+
+class _UnitOne:
+    pass
+
+
+class _Quantity:
+    def __init__(self, m):
+        self.magnitude = m
+
+
+class _NPT:
+    @staticmethod
+    def intersect1d(a, b):
+        return Tm("intersect", a, b)
+
+
+def _mesh(tag):
+    em = type("EM", (), {})()
+    em.centers, em.boundary_edge_indices, em.edge_lengths = Tm("centers", tag), Tm("boundary_edges", tag), Tm("edge_lengths", tag)
+    m = type("M", (), {})()
+    m.sites, m.boundary_indices, m.edge_mesh = Tm("sites", tag), Tm("boundary_sites", tag), em
+    return m
+
+
+class _Terminal:
+    def __init__(self, name, version=0):
+        self.name, self.version = name, version
+
+    def contains_points(self, points, index=False, radius=0):
+        return Tm("inside" if index else "inside_mask", self.name, self.version, points)
+
+
+def _spec_info(mesh, terminals, xi):
+    em = mesh.edge_mesh
+    out = {}
+    for t in terminals:
+        pos = Tm("mul", xi, em.centers)
+        bpos = Tm("take", pos, em.boundary_edge_indices)
+        be = Tm("inside", t.name, t.version, bpos)
+        out[t.name] = dict(site_indices=Tm("intersect", Tm("inside", t.name, t.version, Tm("mul", mesh.sites, xi)), mesh.boundary_indices),
+                           edge_indices=Tm("intersect", Tm("inside", t.name, t.version, pos), em.boundary_edge_indices),
+                           boundary_edge_indices=be,
+                           length=Tm("sum", Tm("take", Tm("take", Tm("mul", em.edge_lengths, xi), em.boundary_edge_indices), be)))
+    return out
+
+
+D_ = "tdgl.device.device"
+
+
+def run_terminal_info(mutate=None):
+    from pyvc import instrument, vc as vcm
+    mut = [(o, n) for (m, o, n) in (mutate or []) if m == D_]
+    L = instrument.load(D_, rebind={"np": _NPT, "ureg": lambda u: _UnitOne()}, mutate=mut, vc=vcm.VC())
+    Device = L["Device"]
+
+    def fresh(mesh, terminals, xi):
+        d = Device.__new__(Device)
+        for k in ("_terminal_info", "_cache", "_info"):        # attributes a caching variant would initialise in __init__
+            pass
+        d.layer = type("Layer", (), {})()
+        d.layer.coherence_length = xi
+        d._length_units = "um"
+        d.mesh = mesh
+        d.terminals = tuple(terminals)
+        return d
+
+    def judge(tag, got, mesh, terminals, xi):
+        spec = _spec_info(mesh, terminals, xi)
+        ok_names = sorted(t.name for t in got) == sorted(spec)
+        sym.check_terms(f"C06.terminal_sites.one_entry_per_current_terminal[{tag}]", ok_names, note=str([t.name for t in got]))
+        for t in got:
+            sp = spec.get(t.name)
+            for fld in ("site_indices", "edge_indices", "boundary_edge_indices", "length"):
+                g = getattr(t, fld)
+                same = sp is not None and isinstance(g, Tm) and g.key() == sp[fld].key()
+                nm = "are_the_boundary_sites_inside_the_terminal_on_the_current_mesh" if fld == "site_indices" else fld + "_from_the_current_state"
+                sym.check_terms(f"C06.terminal_sites.{nm}[{tag}; {t.name}]", same, note=f"{t.name}: got {g!r}; contract {sp[fld] if sp else None!r}")
+
+    def body():
+        xi1, xi2 = Tm("xi", 1), Tm("xi", 2)
+        m1, m2 = _mesh(1), _mesh(2)
+        t1 = [_Terminal("source"), _Terminal("drain")]
+        # fresh device
+        d = fresh(m1, t1, xi1)
+        judge("first call", d.terminal_info(), m1, t1, xi1)
+        # the same device object after the mesh was rebuilt (make_mesh assigns self.mesh)
+        d.mesh = m2
+        judge("after the mesh was rebuilt", d.terminal_info(), m2, t1, xi1)
+        # ... after a terminal polygon was edited in place
+        t1[0].version = 1
+        judge("after a terminal was edited in place", d.terminal_info(), m2, t1, xi1)
+        # ... after the terminals were replaced
+        t2 = [_Terminal("source", 2), _Terminal("top", 0), _Terminal("drain", 0)]
+        d.terminals = tuple(t2)
+        judge("after the terminals were replaced", d.terminal_info(), m2, t2, xi1)
+        # ... after the coherence length changed (points are in length units = xi * sites)
+        d.layer.coherence_length = xi2
+        judge("after the coherence length changed", d.terminal_info(), m2, t2, xi2)
+        # no terminals: nothing is pinned
+        d.terminals = ()
+        sym.check_terms("C06.terminal_sites.no_terminals_no_pinned_sites", len(d.terminal_info()) == 0)
+    obls, n = explore(body)
+    return dict(obls=obls, paths=n, sources=[L.info()], consistent=True)
+
+
 def units():
     return [
         Unit("build_laplacian[pinned rows]", F + "build_laplacian", run_pinned_rows, props=["C06"], timeout=600),
         Unit("set_link_exponents[fix_psi=True]", F + "MeshOperators.set_link_exponents", c10.run_pinned, props=["C06", "C10"], timeout=900),
         Unit("set_link_exponents[fix_psi=False]", F + "MeshOperators.set_link_exponents", c10.run_free, props=["C06", "C10"], timeout=900),
         Unit("step_at_pinned_site[terminal_psi=0]", "tdgl.solver.solver:TDGLSolver.solve_for_psi_squared", run_step_zero, props=["C06"], timeout=300),
+        Unit("Device.terminal_info", "tdgl.device.device:Device.terminal_info", run_terminal_info, props=["C06"], timeout=300),
         Unit("step_at_pinned_site[terminal_psi!=0]", "tdgl.solver.solver:TDGLSolver.solve_for_psi_squared", run_step_nonzero, props=["C06"], timeout=300),
     ]
 
 
+def replay_terminal_info(obl):
+    import os
+    os.environ.setdefault("TQDM_DISABLE", "1")
+    """native: one Device object through a history (solve-like call, then re-mesh / edit a terminal / change xi); after every change
+    terminal_info() must equal that of a freshly constructed device with the same polygons, layer and mesh"""
+    import numpy as np
+    import tdgl
+    from tdgl.geometry import box
+    layer = tdgl.Layer(coherence_length=0.5, london_lambda=2, thickness=0.1)
+    film = tdgl.Polygon("film", points=box(4, 2, points=21))
+    src = tdgl.Polygon("source", points=box(0.2, 1.0)).translate(dx=-2)
+    drn = tdgl.Polygon("drain", points=box(0.2, 1.0)).translate(dx=2)
+    d = tdgl.Device("d", layer=layer, film=film, terminals=[src, drn], length_units="um")
+    d.make_mesh(max_edge_length=0.6, smooth=2)
+    bad = []
+
+    def same(tag):
+        f = tdgl.Device("f", layer=d.layer.copy(), film=d.film.copy(), holes=[h.copy() for h in d.holes], terminals=[t.copy() for t in d.terminals], length_units=d.length_units)
+        f.mesh = d.mesh
+        a = {t.name: t for t in d.terminal_info()}
+        b = {t.name: t for t in f.terminal_info()}
+        if sorted(a) != sorted(b):
+            bad.append(dict(after=tag, terminals_reported=sorted(a), terminals_of_the_device=sorted(b)))
+            return
+        for trm in d.terminals:
+            want = np.array([i for i in d.mesh.boundary_indices if trm.contains_points(d.points[i:i + 1])[0]], dtype=int)
+            if not np.array_equal(np.sort(a[trm.name].site_indices), np.sort(want)):
+                bad.append(dict(after=tag, terminal=trm.name, sites_reported=np.sort(a[trm.name].site_indices).tolist()[:12],
+                                boundary_sites_inside_the_terminal=np.sort(want).tolist()[:12]))
+                return
+        for nme in a:
+            if not (np.array_equal(a[nme].site_indices, b[nme].site_indices) and np.array_equal(a[nme].edge_indices, b[nme].edge_indices)
+                    and np.isclose(a[nme].length, b[nme].length)):
+                bad.append(dict(after=tag, terminal=nme, sites_reported=a[nme].site_indices.tolist()[:12], sites_of_the_current_mesh=b[nme].site_indices.tolist()[:12],
+                                length_reported=float(a[nme].length), length_now=float(b[nme].length)))
+    same("first call")
+    d.make_mesh(max_edge_length=0.25, smooth=2)
+    same("re-meshing at a finer resolution")
+    d.terminals[0].scale(yfact=0.4, inplace=True)
+    same("editing a terminal polygon in place")
+    d.layer.coherence_length = 0.25
+    same("changing the coherence length")
+    return dict(confirmed=bool(bad), failing_history=bad[:4], note="one Device object: terminal_info(), change, terminal_info() again, compared with a fresh Device on the same mesh")
+
+
 def replay(unit, obl):
+    if unit == "Device.terminal_info":
+        return replay_terminal_info(obl)
     if unit.startswith("step_at_pinned_site"):
         import numpy as np
         import scipy.sparse as sp
@@ -134,6 +325,17 @@ MUTANTS = [
     dict(name="isin invert dropped", edits=[(M_, "free_rows = np.isin(rows, fixed_sites, invert=True)", "free_rows = np.isin(rows, fixed_sites)")], units=["build_laplacian[pinned rows]"]),
     dict(name="pin eigenvalue 0", edits=[(M_, "[values, fixed_sites_eigenvalues * np.ones(len(fixed_sites))]", "[values, 0 * np.ones(len(fixed_sites))]")], units=["build_laplacian[pinned rows]"]),
     dict(name="refresh ignores free_rows", edits=[(M_, "            if self.fix_psi:\n                free_rows = self.laplacian_free_rows[: len(self.laplacian_link_rows)]", "            if False:\n                free_rows = self.laplacian_free_rows[: len(self.laplacian_link_rows)]")], units=["set_link_exponents[fix_psi=True]"]),
+    dict(name="terminal_info memoised", edits=[(D_, '''        return tuple(sorted(info, key=attrgetter("length")))''', '''        self._terminal_info = tuple(sorted(info, key=attrgetter("length")))
+        return self._terminal_info'''), (D_, '''        xi = self.layer.coherence_length
+        mesh = self.mesh
+        sites = self.points''', '''        if getattr(self, "_terminal_info", None) is not None:
+            return self._terminal_info
+        xi = self.layer.coherence_length
+        mesh = self.mesh
+        sites = self.points''')], units=["Device.terminal_info"]),
+    dict(name="terminal sites not restricted to the boundary", edits=[(D_, '''            sites_index = np.intersect1d(
+                terminal.contains_points(sites, index=True), mesh.boundary_indices
+            )''', '''            sites_index = terminal.contains_points(sites, index=True)''')], units=["Device.terminal_info"]),
     dict(name="mask by column site", edits=[(M_, "free_rows = np.isin(rows, fixed_sites, invert=True)", "free_rows = np.isin(cols, fixed_sites, invert=True)")], units=["build_laplacian[pinned rows]"]),
 ]
 
